@@ -17,11 +17,11 @@
 EXTENDS Integers, Sequences, FiniteSets, SequencesExt
 
 Concat(ss) == FoldLeft(LAMBDA acc, s : acc \o s, <<>>, ss)
-Kinds == {"ok1", "ok2", "okstate", "failP", "failPH", "failT", "failC"}
+Kinds == {"ok1", "ok2", "okstate", "oknest", "failP", "failPH", "failT", "failC"}     \* oknest: state set by an item inside a nested pipeline
 Fails(k) == k \in {"failP", "failPH", "failT", "failC"}
 FailStage(k) == CASE k = "failP" -> "apply" [] k \in {"failPH", "failT", "failC"} -> "convert" [] OTHER -> "none"
 NQueries(k) == IF k = "ok2" THEN 2 ELSE IF Fails(k) THEN 0 ELSE 1
-StateOf(k) == IF k = "okstate" THEN "win" ELSE "default"
+StateOf(k) == IF k = "okstate" THEN "win" ELSE IF k = "oknest" THEN "nestwin" ELSE "default"
 
 \* st == [pos, stage, out (Seq of <<rule, cond, state>>), errors (Seq of rule), pstate, templates, status]
 VInit == [pos |-> 1, stage |-> "apply", out |-> <<>>, errors |-> <<>>, pstate |-> "default",
